@@ -72,6 +72,20 @@ def replay(chk, behs, rng, fire_every):
         for step, op in enumerate(b["ops"]):
             a = op["a"]
             sig.append(a)
+            if not bare and bi % 2 == 0:
+                # legitimate meddling between operations: the caller looks at the ammunition's own quantities in other units
+                # (<< re-labels the stored object in place) and switches the preferred units; with explicit-unit arguments
+                # none of this may change any velocity (C13: display only; C07: preferences only read bare numbers)
+                pert = (bi + step) % 4
+                if pert == 0:
+                    ammo.mv << UA.unit_enum(vel_units[(bi + step + 1) % 5])
+                elif pert == 1:
+                    ammo.powder_temp << UA.unit_enum(temp_units[(bi + step + 1) % 4])
+                elif pert == 2:
+                    m.PreferredUnits.velocity = UA.unit_enum(vel_units[(bi + step + 2) % 5])
+                else:
+                    m.PreferredUnits.temperature = UA.unit_enum(temp_units[(bi + step + 2) % 4])
+                chk.stratum("display_and_preferences_perturbed")
             if a == "Calibrate":
                 before = (ammo.temp_modifier, ammo.use_powder_sensitivity)
                 o = impl.outcome(ammo.calc_powder_sens, V_(op["v"]), T_(op["T"]))
@@ -163,7 +177,7 @@ def run(chk: core.Check, replay_path=None, **_):
     chk.traces += len(behs)
     for b in behs[:: max(1, len(behs) // 4)][:4]:
         chk.sample(b)
-    chk.require_strata(["bare_numbers", "calibration_rejected", "calibrated_faster", "calibrated_slower", "calibrated_warmer", "calibrated_colder",
+    chk.require_strata(["display_and_preferences_perturbed", "bare_numbers", "calibration_rejected", "calibrated_faster", "calibrated_slower", "calibrated_warmer", "calibrated_colder",
                         "query_enabled", "query_disabled", "fire_air", "fire_powder_t"])
     chk.rule.append("every behaviour of %d operations of the Powder state machine over v in %s m/s, T in %s C (TLC Gen_Powder), "
                     "temperatures/velocities passed in rotating units; non-trivial = an enabled query whose answer differs "
